@@ -487,6 +487,14 @@ def rule_deref_closure(em, rep, rid):
 def rule_to_python_siblings(em, rep, rid):
     rep.rule(rid, 'every to_python implementation reads term-valued fields only through get_value()/to_python() of the component')
     impls = [c.methods['to_python'] for c in em.repo.all_classes(('engine',)) if 'to_python' in c.methods]
+    # the term-valued fields of the term classes (read through any receiver, e.g. a local walking down a list)
+    term_fields = set()
+    for c in em.repo.all_classes(('engine',)):
+        if 'to_python' in c.methods and 'unify' in c.methods:
+            for m in c.methods.values():
+                for y in own_nodes(m.node):
+                    if is_self_attr(y) and isinstance(y.ctx, ast.Store) and y.attr not in NON_TERM_FIELDS and y.attr != '_is_bound':
+                        term_fields.add(y.attr)
     n = 0
     for f in impls:
         if 'abstractmethod' in ' '.join(f.decorators):
@@ -494,7 +502,8 @@ def rule_to_python_siblings(em, rep, rid):
         n += 1
         bad = None
         for x in own_nodes_ordered(f.node):
-            if is_self_attr(x) and isinstance(x.ctx, ast.Load) and x.attr not in NON_TERM_FIELDS:
+            if isinstance(x, ast.Attribute) and isinstance(x.ctx, ast.Load) and x.attr not in NON_TERM_FIELDS and \
+                    (is_self_attr(x) or x.attr in term_fields):
                 pc = getattr(x, '_parent', None)
                 if isinstance(pc, ast.Call) and pc.func is x:
                     continue          # a method call on self, not a field read
@@ -908,3 +917,18 @@ def rule_constant_agreement(em, rep, rid):
         rep.ok(rid, 'atom-interning', 'atom() looks the name up before creating', at.loc())
     else:
         rep.violation(rid, 'atom-interning', 'atom() does not intern: two atoms of one name are two objects in one engine', at.loc())
+
+
+def rule_atoms_unify_by_name(em, rep, rid):
+    rep.rule(rid, 'two atoms unify exactly when their names are equal (a comparison with == / != on the name in Atom.unify): '
+                  'identity would make atoms created with Atom(...), by another engine, or before a clear() different terms')
+    atom = em.repo.cls('engine', 'Atom')
+    au = atom.methods.get('unify')
+    if au is None:
+        raise AnalysisError('anchor vanished: Atom.unify')
+    cmp_ = [x for x in own_nodes(au.node) if isinstance(x, ast.Compare) and '_name' in norm(x)]
+    if cmp_ and all(isinstance(c.ops[0], (ast.Eq, ast.NotEq)) for c in cmp_):
+        rep.ok(rid, 'atom-unify-by-name', 'atoms unify when their names are equal (==), also across engines', au.loc(cmp_[0]))
+    else:
+        rep.violation(rid, 'atom-unify-by-name', 'atoms are not compared by name with ==: atoms of the same name from different '
+                      'engines (or created with Atom() directly, or kept across clear()) do not unify', au.loc())
